@@ -22,7 +22,7 @@ PROPERTIES = ["SortIsOnePermutation", "RejectedChangesNothing", "NameIsKey", "Ds
               "CopiesAreFresh", "ShallowCopySharesMembers", "DeepCopyDisjoint"]
 
 
-def write_cfg(name, acts, depth, emit, keys=("a", "b"), maxobj=14, maxgrp=4, check=True, idx=None, ops=None, objs=None, grps=None, paths=False):
+def write_cfg(name, acts, depth, emit, keys=("a", "b"), maxobj=14, maxgrp=4, check=True, idx=None, ops=None, objs=None, grps=None, paths=False, ties=False):
     os.makedirs(os.path.join(common.WORK, "cfg"), exist_ok=True)
     path = os.path.join(common.WORK, "cfg", name + ".cfg")
     lines = ["INIT Init", "NEXT Next",
@@ -33,6 +33,7 @@ def write_cfg(name, acts, depth, emit, keys=("a", "b"), maxobj=14, maxgrp=4, che
              " OpsUse = {" + ",".join(f'"{k}"' for k in (ops or ["add", "sub", "mul", "div"])) + "}",
              " ObjUse = {" + ",".join(str(k) for k in (objs or [])) + "}",
              " GrpUse = {" + ",".join(str(k) for k in (grps or [])) + "}",
+             " TiesPool = " + ("TRUE" if ties else "FALSE"),
              "VIEW ViewPath" if paths else "VIEW View", "CHECK_DEADLOCK FALSE", "CONSTRAINT SmallValues"]
     if check:
         lines += ["INVARIANT " + i for i in INVARIANTS] + ["PROPERTY " + p for p in PROPERTIES]
@@ -45,8 +46,8 @@ def write_cfg(name, acts, depth, emit, keys=("a", "b"), maxobj=14, maxgrp=4, che
     return path
 
 
-def tlc_emit(rep, label, acts, depth, simulate=None, seed=None, sim_depth=None, idx=None, ops=None, objs=None, keys=("a", "b"), grps=None, paths=False):
-    cfg = write_cfg(label, acts, depth if not simulate else sim_depth, emit="states" if simulate else "transitions", check=not simulate, idx=idx, ops=ops, objs=objs, keys=keys, grps=grps, paths=paths)
+def tlc_emit(rep, label, acts, depth, simulate=None, seed=None, sim_depth=None, idx=None, ops=None, objs=None, keys=("a", "b"), grps=None, paths=False, ties=False):
+    cfg = write_cfg(label, acts, depth if not simulate else sim_depth, emit="states" if simulate else "transitions", check=not simulate, idx=idx, ops=ops, objs=objs, keys=keys, grps=grps, paths=paths, ties=ties)
     res = common.run_tlc("Containers", cfg, workers=16, simulate=simulate, depth=sim_depth, seed=seed, timeout=3000)
     rep.tlc(res, label)
     recs = res.json_lines()
@@ -105,7 +106,7 @@ def expected_state(hist):
 
 
 def init_state():
-    from .containers_world import World  # noqa
+    from . import containers_world
     U = {"m": [["m", 1]], "s": [["s", 1]], "cm": [["cm", 1]], "": []}
 
     def ints(xs):
@@ -113,7 +114,7 @@ def init_state():
 
     def obj(kind, bufs_, n, u, dt, scalar=False):
         return {"k": kind, "c": [{"buf": b, "idx": list(range(1, n + 1))} for b in bufs_], "s": scalar, "u": U[u], "n": "", "dt": dt}
-    bufs = [ints([3, 1, 2]), ints([20, 30, 10]), ints([7, 5]), ints([9]), ints([100, 300, 200]), ints([4, 6, 5]), ints([2, 0, 1]), ints([500, 700, 100]), ints([6, 2, 4]), ints([900, 900, 900]), ints([600, 200, 400])]
+    bufs = [ints([3, 1, 2]), ints([20, 30, 10]), ints([7, 5]), ints([9]), ints([100, 300, 200]), ints([4, 6, 5]), ints([2, 0, 2] if containers_world.POOL_TIES else [2, 0, 1]), ints([500, 700, 100]), ints([6, 2, 4]), ints([900, 900, 900]), ints([600, 200, 400])]
     heap = [obj("arr", [1], 3, "m", "f8"), obj("arr", [2], 3, "s", "f8"), obj("arr", [3], 2, "m", "f8"), obj("arr", [4], 1, "m", "f8", True),
             obj("vec", [5, 6], 3, "cm", "f8"), obj("arr", [7], 3, "", "i8"), obj("arr", [8], 3, "cm", "f8"), obj("arr", [9], 3, "m", "f4"), obj("arr", [10], 3, "cm", "f8"), obj("arr", [11], 3, "cm", "f8")]
     g0 = {"keys": [], "val": [], "name": "", "parent": 0}
@@ -306,6 +307,15 @@ def _run(rep, tier, seed, focus, acts_for_sim):
         recs = tlc_emit(rep, f"{focus}-bfs-depth4-reduced", FOCUS[focus], 4, idx=["i0", "s_2", "mask", "ia", "perm"], keys=("a",))
         replay_records(rep, recs, focus, f"{focus}-bfs4", sample_cap=300000, seed=seed)
         del recs
+    if focus == "rows":
+        # sorting by a key with ties: any permutation that orders the key, the same for every member
+        from . import containers_world
+        containers_world.POOL_TIES = True
+        try:
+            recs = tlc_emit(rep, "sort-ties", ["set", "sortkey"], 3, objs=[1, 5, 6], ties=True)
+            replay_records(rep, recs, focus, "sort-ties", sample_cap=40000, seed=seed)
+        finally:
+            containers_world.POOL_TIES = False
     if focus in ("rows", "dict"):
         # the shape gate over long insert / pop / delete / clear histories (emptying and refilling a group with another shape)
         recs = tlc_emit(rep, "gate-depth5", ["set", "pop", "del", "clear"], 5 if tier == "quick" else 6, objs=[1, 3, 4])
